@@ -98,6 +98,10 @@ pub fn ser_with<T: Serialize + ?Sized>(v: &T, cfg: &SerCfg) -> Result<String, St
 
 pub trait Val: Any {
     fn ser(&self, cfg: &SerCfg) -> Result<String, String>;
+    /// the other entry points of the serializer
+    fn se_to_string(&self) -> Result<String, String>;
+    fn se_to_writer(&self) -> Result<String, String>;
+    fn se_to_io(&self, sink: &mut dyn std::io::Write) -> Result<(), String>;
     fn eq_val(&self, other: &dyn Val) -> bool;
     fn dbg(&self) -> String;
     fn as_any(&self) -> &dyn Any;
@@ -105,6 +109,16 @@ pub trait Val: Any {
 impl<T: Serialize + PartialEq + Debug + 'static> Val for T {
     fn ser(&self, cfg: &SerCfg) -> Result<String, String> {
         ser_with(self, cfg)
+    }
+    fn se_to_string(&self) -> Result<String, String> {
+        quick_xml::se::to_string(self).map_err(|e| e.to_string())
+    }
+    fn se_to_writer(&self) -> Result<String, String> {
+        let mut s = String::new();
+        quick_xml::se::to_writer(&mut s, self).map(|_| s).map_err(|e| e.to_string())
+    }
+    fn se_to_io(&self, sink: &mut dyn std::io::Write) -> Result<(), String> {
+        quick_xml::se::to_utf8_io_writer(sink, self).map(|_| ()).map_err(|e| e.to_string())
     }
     fn eq_val(&self, other: &dyn Val) -> bool {
         other.as_any().downcast_ref::<T>().map_or(false, |o| o == self)
@@ -819,6 +833,18 @@ fn gen_listtext(r: &mut Rng) -> ListText {
     }
 }
 
+/// T18 — a `$value` choice next to ordinary element fields
+#[derive(Serialize, Deserialize, Debug, PartialEq, Clone)]
+#[serde(rename = "s_valueplus")]
+pub struct ValuePlus {
+    #[serde(rename = "@a_k")]
+    pub k: u8,
+    pub t_title: String,
+    #[serde(rename = "$value")]
+    pub c: Choice,
+    pub t_tail: u32,
+}
+
 // ---- shapes for overlapped lists (C20) ------------------------------------
 
 #[derive(Serialize, Deserialize, Debug, PartialEq, Clone, Default)]
@@ -886,6 +912,29 @@ pub struct OvlDeep {
     pub s_item2: Vec<OvlItem2>,
     #[serde(default)]
     pub t_d: Vec<u32>,
+}
+/// three lists whose middle items contain a child with the item's own name
+#[derive(Serialize, Deserialize, Debug, PartialEq, Clone, Default)]
+pub struct OvlLeaf {
+    #[serde(rename = "@a_id", default)]
+    pub id: u8,
+}
+#[derive(Serialize, Deserialize, Debug, PartialEq, Clone, Default)]
+pub struct OvlNode {
+    #[serde(rename = "@a_id", default)]
+    pub id: u8,
+    #[serde(default)]
+    pub t_b: Vec<OvlLeaf>,
+}
+#[derive(Serialize, Deserialize, Debug, PartialEq, Clone, Default)]
+#[serde(rename = "s_ovlrec")]
+pub struct OvlRec {
+    #[serde(default)]
+    pub t_a: Vec<String>,
+    #[serde(default)]
+    pub t_b: Vec<OvlNode>,
+    #[serde(default)]
+    pub t_c: Vec<String>,
 }
 /// a $value enum list next to a named list
 #[derive(Serialize, Deserialize, Debug, PartialEq, Clone)]
@@ -985,6 +1034,7 @@ pub fn family() -> Vec<TypeOps> {
         ops!(Deep, "Deep", gen = gen_deep, rows = &["nested:lists-of-structs-with-lists"]),
         ops!(Nums, "Nums", gen = gen_nums, rows = &["numbers:extremes", "list:elements-number"]),
         ops!(ListText, "ListText", gen = gen_listtext, rows = &["list:elements-followed-by-$text"]),
+        ops!(ValuePlus, "ValuePlus", gen = |r| ValuePlus { k: r.next() as u8, t_title: gen_string(r, Pos::Text), c: gen_choice(r), t_tail: r.next() as u32 }, rows = &["$value:enum-choice-next-to-element-fields"]),
     ]
 }
 
@@ -1029,6 +1079,13 @@ pub fn ovl_family() -> Vec<(TypeOps, fn(&mut Rng, usize) -> Box<dyn Val>)> {
                 t_c: gen_ovl_strings(r, m.min(3)),
                 s_item2: (0..r.below(m.min(3) + 1)).map(|_| OvlItem2 { t_a: gen_ovl_strings(r, 2), t_b: gen_ovl_nums(r, 2) }).collect(),
                 t_d: gen_ovl_nums(r, m.min(3)),
+            })
+        }),
+        (ops!(OvlRec, "OvlRec"), |r, m| {
+            Box::new(OvlRec {
+                t_a: gen_ovl_strings(r, m.min(3)),
+                t_b: (0..r.below(m.min(3) + 1)).map(|_| OvlNode { id: r.next() as u8, t_b: (0..r.below(3)).map(|_| OvlLeaf { id: r.next() as u8 }).collect() }).collect(),
+                t_c: gen_ovl_strings(r, m.min(3)),
             })
         }),
         (ops!(OvlNested, "OvlNested"), |r, m| {
@@ -1249,7 +1306,7 @@ pub struct AnyMap {
 
 pub const KEY_POOL: &[&str] = &[
     "", "@", "@x y", "$text", "$value", "<", ">", "a:b", "ok", "k1", "a b", "1a", "@fine", "@a<b", "é", "-x", "x-", "a.b", "@", "@@", "@$text", "xml", "xmlns", "@xmlns", "@xmlns:p", "a\"b", "a'b", "a&b",
-    "\u{0}", "@\u{0}", " ", "@ ", "a=b", "a/b", "/", "@/",
+    "\u{0}", "@\u{0}", " ", "@ ", "a=b", "a/b", "/", "@/", "@a", "@@a", "@@@a", "@@fine", "a", "@k1", "@@k1", "$$text", "@$value",
 ];
 
 /// mixed content with items that write nothing (None, empty list) between text and elements
@@ -1308,7 +1365,7 @@ pub struct SerOnly {
 
 fn gen_anymap(r: &mut Rng) -> BTreeMap<String, String> {
     let mut m = BTreeMap::new();
-    for _ in 0..1 + r.below(4) {
+    for _ in 0..1 + r.below(5) {
         let k = if r.chance(1, 4) { gen_key(r) } else { r.pick(KEY_POOL).to_string() };
         m.insert(k, gen_string(r, Pos::Attr));
     }
